@@ -211,6 +211,43 @@ theorem loopL_eq_walkF (st : StoredL nb m k q lo D S rd) :
         rw [hb, if_pos rfl]
         omega
 
+/-- after any number of passes through the loop body the handler carries the true values at the cursor of the matrix
+walk of a hit (all states readable: `lo = 0`) -/
+theorem afterL_inv (st : StoredL nb m k q 0 D S rd) (hq : 1 ≤ q) (hhit : D m (q - 1) ≤ k) :
+    ∀ n, LInvAny nb m k q D S (curAfter D m (q - 1) n).1 (curAfter D m (q - 1) n).2 (LHandler.after nb m rd n) := by
+  intro n
+  induction n with
+  | zero => exact startL_inv st (by omega) hhit
+  | succ n ih =>
+    simp only [LHandler.after, curAfter]
+    cases hc : (curAfter D m (q - 1) n).1 with
+    | zero =>
+      rw [hc] at ih
+      simp only [LInvAny] at ih ⊢
+      have hf : (LHandler.after nb m rd n).finished = true := by
+        simp only [LHandler.finished, ih.1, ih.2, beq_self_eq_true, Bool.and_self]
+      rw [if_pos hf, hc]
+      exact ih
+    | succ i' =>
+      rw [hc] at ih
+      simp only [LInvAny] at ih ⊢
+      obtain ⟨B, b, BL, a, inv⟩ := ih
+      have hi := inv.hi
+      have hlw := st.geo.len_le B
+      have hb := inv.rg.hb
+      have hnf : (LHandler.after nb m rd n).finished = false := by
+        simp only [LHandler.finished, inv.rg.pos]
+        rw [beq_false_of_ne (twoPow_ne_zero (by omega))]
+        rfl
+      have hlo' : ruleOp D i' (curAfter D m (q - 1) n).2 ≠ Op.ins → 0 + 1 ≤ (curAfter D m (q - 1) n).2 := by
+        intro hne
+        cases hj : (curAfter D m (q - 1) n).2 with
+        | zero => rw [hj] at hne; exact absurd (ruleOp_col0L st i' hi) hne
+        | succ j' => omega
+      obtain ⟨_, _, e3⟩ := iterL_spec st inv hlo'
+      simp only [hnf, Bool.false_eq_true, if_false]
+      exact e3
+
 /-- `_traceback_at` with the block-based handler on the stored columns = the matrix-level walk, for a hit -/
 theorem tracebackRdL_eq (st : StoredL nb m k q lo D S rd) (hq : 1 ≤ q) (hhit : D m (q - 1) ≤ k) (fuel : Nat)
     (hlo : lo ≤ (walkF D fuel m (q - 1)).1) :
